@@ -197,6 +197,10 @@ def infeasible_items(tier):
         for gl in ("2h", "3d", "4w", "60d"):
             add(f"gaplength {gl} alap={alap}", {"alap": alap, "dur": "2w", "resources": R,
                                                 "tasks": [T("a"), {"id": "b", "effort": 60, "alloc": ["r1"], "raw": [f"depends a {{ gaplength {gl} }}"]}]})
+            # ... in front of a milestone, and inherited from a container (a bound beyond the window must leave them unscheduled)
+            add(f"gaplength {gl} milestone alap={alap}", {"alap": alap, "dur": "2w", "resources": R,
+                                                          "tasks": [T("a"), {"id": "m", "milestone": True, "deps": [{"ref": "a", "gaplen": gl}]},
+                                                                    {"id": "g", "deps": [{"ref": "a", "gaplen": gl}], "children": [{"id": "n", "milestone": True}, T("w")]}]})
     never = {"id": "rp", "leaves": [{"k": "leaves", "type": "annual", "a": "2025-01-01", "b": "2026-01-01"}]}
     for alap in (False, True):
         for scen in (None, [("plan", [("s2", [])])]):
@@ -346,12 +350,41 @@ def evaluate(item):
                     v.append(("silent", f"{t['id']} is unscheduled and no warning was emitted"))
         if item["kind"] == "spec" and item.get("spec") is not None:
             v += no_cause(item["spec"], obs)
+            v += bound_beyond(item["spec"], obs)
         r["x"] = {"accepted": 1, "runs_with_unscheduled_leaf": 1 if any(not t["sched"][0] for t in leaves) else 0}
         r["nt"] = any(not t["sched"][0] for t in leaves) or item["kind"] == "spec"
     if item["kind"] == "text" and not accepted:
         r["nt"] = True
     r["v"] = common.dedup(v)
     return r
+
+
+def bound_beyond(spec, obs):
+    """forward tasks behind a gaplength edge whose bound (predecessor end + that many working hours of the project calendar) lies
+    beyond the project end must be unscheduled - not parked at the project end"""
+    v = []
+    if not spec or spec.get("alap"):
+        return v
+    try:
+        deps = RefDeps(spec)
+    except Exception:
+        return v
+    from mc.ref.calendar import RefCalendar
+    cal = None
+    tix = {t["id"]: t for t in obs["tasks"]}
+    for fid in deps.leaves():
+        gl = [(p, h) for a in [fid] + list(deps.ancestors(fid)) for p, h in deps.gaplen.get(a, [])]
+        rec = tix.get(fid)
+        if not gl or rec is None or not rec["sched"][0]:
+            continue
+        cal = cal or RefCalendar(spec)
+        for p, hours in gl:
+            pr = tix.get(p)
+            if pr and pr["sched"][0] and pr["end"][0] is not None:
+                bound = cal.advance_working(pr["end"][0], hours)
+                if bound > obs["pend"]:
+                    v.append(("bound-beyond", f"{fid} is reported scheduled at {rec['start'][0]} although its bound {p}.end + {hours} working hours = {bound} lies beyond the project end {obs['pend']}"))
+    return v
 
 
 def no_cause(spec, obs):
